@@ -190,6 +190,36 @@ pub fn minimise(run: &IoRun, prop: &str, inv: &str) -> IoRun {
     cur
 }
 
+/// Wall-clock limit of a single run before the watchdog declares that the
+/// code under test does not terminate (ordinary runs take milliseconds).
+pub const HANG_LIMIT: std::time::Duration = std::time::Duration::from_secs(120);
+
+/// Called by the watchdog: a run did not come back. The run is a pure function
+/// of (seed, index), so it can be stored as a replay without having finished.
+fn report_hang(prop: &str, opts: &Opts, origin: String, run: &IoRun) -> ! {
+    let rp = Replay {
+        engine: "iosim".into(),
+        property: prop.into(),
+        invariant: "no_termination".into(),
+        key: "no_termination".into(),
+        detail: format!("the run did not terminate within {} s", HANG_LIMIT.as_secs()),
+        seed: opts.seed,
+        origin: origin.clone(),
+        original_size: size_of(run),
+        run: run.clone(),
+    };
+    let path = opts.replay_dir.join(format!("{}-{}-no_termination.json", prop, opts.seed));
+    let _ = std::fs::create_dir_all(&opts.replay_dir);
+    let _ = std::fs::write(&path, serde_json::to_string_pretty(&rp).unwrap());
+    println!(
+        "violation found at {}: no_termination :: an operation of the library did not return within {} s (not minimised: every candidate would have to time out)",
+        origin,
+        HANG_LIMIT.as_secs()
+    );
+    println!("VIOLATION property={} replay={}", prop, path.display());
+    std::process::exit(simcore::EXIT_VIOLATION)
+}
+
 fn focus_runs(prop: &str, quick: bool) -> u64 {
     match (prop, quick) {
         ("C02", true) => 40_000,
@@ -344,12 +374,14 @@ pub fn run_check(prop: &str, opts: &Opts) -> i32 {
     let n_enum = cases.len() as u64;
     {
         let cases_ref = &cases;
-        simcore::par::run_batch(
+        let on_hang = |i: u64| report_hang(prop, opts, format!("enumeration#{}", i), &cases_ref[i as usize]);
+        simcore::par::run_batch_guarded(
             n_enum,
             workers,
             |i| execute(&cases_ref[i as usize], false),
             &mut acc,
             |acc, i, o| absorb(acc, prop, &known, format!("enumeration#{}", i), &cases_ref[i as usize], o),
+            Some((HANG_LIMIT, &on_hang)),
         );
     }
     let enum_done = acc.found.is_none();
@@ -368,7 +400,12 @@ pub fn run_check(prop: &str, opts: &Opts) -> i32 {
         while start < n_seeded && acc.found.is_none() {
             let n = slice.min(n_seeded - start);
             let corpus_ref = &corpus;
-            simcore::par::run_batch(
+            let on_hang = |i: u64| {
+                let mut rng = Rng::new(run_seed(batch_seed, start + i));
+                let run = gen::gen_run(&mut rng, corpus_ref, prop);
+                report_hang(prop, opts, format!("seeded#{}", start + i), &run)
+            };
+            simcore::par::run_batch_guarded(
                 n,
                 workers,
                 |i| {
@@ -379,6 +416,7 @@ pub fn run_check(prop: &str, opts: &Opts) -> i32 {
                 },
                 &mut acc,
                 |acc, i, (run, o)| absorb(acc, prop, &known, format!("seeded#{}", start + i), &run, o),
+                Some((HANG_LIMIT, &on_hang)),
             );
             start += n;
             seeded_done = start;
@@ -565,7 +603,19 @@ pub fn replay(path: &std::path::Path, quiet: bool) -> i32 {
         eprintln!("HARNESS-ERROR: self-test failed: {}", e);
         return simcore::EXIT_HARNESS;
     }
-    let o = execute(&rp.run, true);
+    let (tx, rx) = std::sync::mpsc::channel();
+    let run = rp.run.clone();
+    std::thread::spawn(move || {
+        let _ = tx.send(execute(&run, true));
+    });
+    let o = match rx.recv_timeout(HANG_LIMIT) {
+        Ok(o) => o,
+        Err(_) => {
+            println!("reproduced: no_termination :: the run did not terminate within {} s", HANG_LIMIT.as_secs());
+            println!("VIOLATION property={} replay={}", rp.property, path.display());
+            std::process::exit(simcore::EXIT_VIOLATION);
+        }
+    };
     if !quiet {
         for l in &o.log {
             println!("  {}", l);
